@@ -4,6 +4,7 @@ from typing import Any, Dict, List, Optional, Set, Tuple, Type, Union
 
 import vtlengine.AST as AST
 import vtlengine.Exceptions
+from vtlengine import _verif
 from vtlengine.AST.ASTTemplate import ASTTemplate
 from vtlengine.AST.DAG import HRDAGAnalyzer
 from vtlengine.AST.Grammar.tokens import (
@@ -150,6 +151,7 @@ class InterpreterAnalyzer(ASTTemplate):
         for child in node.children:
             if isinstance(child, (AST.Assignment, AST.PersistentAssignment)):
                 vtlengine.Exceptions.dataset_output = child.left.value  # type: ignore[attr-defined]
+                _verif.yield_point("dataset_output:set")
             if not isinstance(
                 child,
                 (AST.HRuleset, AST.DPRuleset, AST.Operator, AST.ViralPropagationDef),
@@ -175,6 +177,7 @@ class InterpreterAnalyzer(ASTTemplate):
                         raise SemanticError("1-3-3-6", name=viral_comp.name)
 
             vtlengine.Exceptions.dataset_output = None
+            _verif.yield_point("dataset_output:clear")
             self.datasets[result.name] = copy(result)
             results[result.name] = result
             if isinstance(result, Scalar):
